@@ -153,6 +153,8 @@ func injective(m map[string]string, prefix string) (bool, string) {
 	return true, ""
 }
 
+var kwSigCount = map[string]int{}
+
 func hasWord(text, w string) bool {
 	for _, f := range strings.FieldsFunc(strings.ToLower(text), func(r rune) bool {
 		return !(r == '_' || r >= 'a' && r <= 'z' || r >= '0' && r <= '9')
@@ -189,7 +191,13 @@ func checkOutput(c *lib.Ctx, id int, cs caseT, si int, out string, err error, pa
 			continue // the statement also uses the word as a keyword: its survival proves nothing
 		}
 		if hasWord(out, kw.Name) {
-			c.PredFail(id, "keyword-named-identifier-survives/"+cs.Templates[si],
+			sig := "keyword-named-identifier-survives/" + cs.Templates[si]
+			kwSigCount[sig]++
+			if kwSigCount[sig] > 2 { // the list of recorded failures is capped: keep room for other signatures
+				c.Count("predicate_failure_not_recorded_again:" + sig)
+				return
+			}
+			c.PredFail(id, sig,
 				fmt.Sprintf("%q redacts to %q: the name %q (a non-reserved keyword used as an identifier, hole %d of %q) survives", sql, out, kw.Name, kw.Hole, cs.Templates[si]), cs)
 			return
 		}
